@@ -361,7 +361,7 @@ import ct as _ct
 
 
 def _c10_setup():
-    for cfg, tables in [("simd", True), ("simd", False), ("serial64", True), ("serial32", True), ("fiat64", True), ("fiat32", True)]:
+    for cfg, tables in [("simd", True), ("simd", False), ("serial64", True), ("serial32", True), ("fiat64", True), ("fiat32", True), ("avx512", True), ("avx512", False)]:
         _ct.build(cfg, tables, lambda *a: None)
 
 
@@ -371,14 +371,14 @@ PROPS["C10"] = {
     "assumptions": [
         "valgrind's lackey tool reports every executed guest instruction address and every load/store address and size of the unmodified release binary",
         "the property is decided for the artefact produced by the pinned compiler at the release profile, for the secrets of the alphabet; micro-architectural timing is not observed (nor claimed by the property)",
-        "valgrind cannot execute AVX-512: the IFMA backend's compiled code is not traced (DESIGN.md section 5)",
+        "valgrind cannot execute AVX-512: the IFMA backend's compiled code is traced with a ptrace single-stepper that records instruction pointers only (no data addresses)",
         "VERIF_SEED is recorded but unused: the secret alphabet is a deterministic enumeration",
     ],
     "custom": _ct.run,
     "setup": _c10_setup,
     "level_text": "Exhaustive over a structured secret alphabet (digit values, carries, extreme scalars, single bits) for every operation not documented as variable-time, on the compiled release artefact of each backend; equality of full (instruction, data address) traces; variable-time entry points as positive controls in every run.",
     "design_ref": "DESIGN.md section 4, C10",
-    "level_note": "Observes architectural control flow and data addresses of one compiler output; secrets outside the alphabet and the IFMA backend are not covered.",
+    "level_note": "Observes architectural control flow and data addresses of one compiler output (IFMA: control flow only); secrets outside the alphabet are not covered.",
     "technique": "exhaustive secret-alphabet enumeration with full instruction/address trace comparison (valgrind lackey) on release binaries",
     "engine": "ct (valgrind lackey + trace cutter)",
 }
